@@ -36,6 +36,9 @@ def run(tier):
         for _p in 'ds':
             _r12.run(chk, 'C04.kern.index', prog, _p, cfgname)
             _r12.run_snode(chk, 'C04.kern.index', prog, _p, cfgname)
+        from ..rules import misc as _misc
+        chk.clause('C04.cabs', 'the magnitude by which the complex pivot search decides "every candidate is exactly zero" takes the real and the imaginary part')
+        _misc.complex_magnitude_rule(chk, 'C04.cabs', prog, cfgname)
         n1 = n2 = n3 = 0
         for p in _drv.PRECS:
             n1 += pivot.run(chk, 'C04.D1', prog, p, cfgname)
